@@ -617,7 +617,56 @@ static std::vector<UEntry> const& utable()
     return t;
 }
 
+// ---- in-process crash guard -------------------------------------------------------------------------------------------
+// The harness runs all cases in one process (--nofork).  A changed library can make one case trap (integer division by
+// zero -> SIGFPE, ...): without a guard the process dies and every later case of the variant is lost ("impl missing").
+// With it the case is reported as "crash <signal>" (reference leg "na"; the driver's spec leg then yields the failing
+// input) and the run continues.  Not used in the UBSan build, whose traps are reported by the forking supervisor.
+#include <csetjmp>
+#include <csignal>
+static sigjmp_buf g_crash_jmp;
+static volatile std::sig_atomic_t g_crash_armed = 0;
+static void c12_crash_handler(int sig)
+{
+    if (g_crash_armed != 0) {
+        g_crash_armed = 0;
+        siglongjmp(g_crash_jmp, sig);
+    }
+    std::signal(sig, SIG_DFL);
+    std::raise(sig);
+}
+static bool run_case_inner(std::string const& op, Toks& in, Out& impl, Out& ref);
 bool vh::run_case(std::string const& op, Toks& in, Out& impl, Out& ref)
+{
+#ifdef C12_UBSAN
+    return run_case_inner(op, in, impl, ref);
+#else
+    static bool const installed = [] {
+        for (int s : {SIGFPE, SIGILL, SIGSEGV, SIGBUS, SIGABRT}) {
+            struct sigaction sa {};
+            sa.sa_handler = c12_crash_handler;
+            sigemptyset(&sa.sa_mask);
+            sa.sa_flags = SA_NODEFER;
+            sigaction(s, &sa, nullptr);
+        }
+        return true;
+    }();
+    (void)installed;
+    int const sig = sigsetjmp(g_crash_jmp, 1);
+    if (sig != 0) {
+        impl.s.clear();
+        ref.s.clear();
+        impl.tok("crash").num(sig);
+        return true;
+    }
+    g_crash_armed = 1;
+    bool const r = run_case_inner(op, in, impl, ref);
+    g_crash_armed = 0;
+    return r;
+#endif
+}
+
+static bool run_case_inner(std::string const& op, Toks& in, Out& impl, Out& ref)
 {
     if (op.rfind("u_", 0) != 0) {
         impl.tok("skip");
